@@ -277,6 +277,7 @@ func zzSapParseAll(tag string, c zzSapCfg, p Parser, pb *ParserBuffer, nilFirst 
 //	4: Write(a) Parse* Reset(nil) Write(b) Parse*
 //	5: Write(all) Parse(nil) Parse*                    (C14)
 //	6: Write(a) Parse(one block) Parse(nil) Write(b) Parse*
+//	7: Write(a) Parse(one block) Write(b) Parse(nil) Parse*
 func zzSapScript(kind int) {
 	N := verifParam("N")
 	k := verifParam("k")
@@ -344,6 +345,11 @@ func zzSapScript(kind int) {
 		zzSapParseAll("Parse after Parse(nil) [C14]", c, p, pb, true, true)
 		wr(b)
 		zzSapParseAll("Parse after Parse(nil), fill 2 [C14]", c, p, pb, false, true)
+	case 7: // the skipped block crosses the end of the suffix structures built for the first fill
+		wr(a)
+		one()
+		wr(b)
+		zzSapParseAll("Parse after Parse(nil) across fills [C14]", c, p, pb, true, true)
 	}
 	verifReach("end")
 }
